@@ -3,6 +3,7 @@
 -/
 import Driver.Codec
 import Svgdx.Ctl.SimpleEval
+import Svgdx.Sched.Retry
 namespace Driver
 open Svgdx Ctl
 
@@ -48,6 +49,19 @@ def handleCtl (op : Str) (args : List Str) : Option String :=
       some (joinFields ([status, natField st.depth, natField st.scopes.length, natField st.elemStack.length,
         (if st.inSpecs then ['1'] else ['0']), (if st.outside then ['1'] else ['0']), bb] ++ evs))
     | _ => none
+  else if op == cs!"sched_run" then
+    -- `sched_run "id dep dep…" …` → `some id=level …` (in resolution order) | `none`:
+    -- the abstract retry loop on items that are ready once all their dependencies are resolved
+    let items : List (Sched.Item Nat Nat) := args.filterMap fun a =>
+      match (Str.splitWhitespace a).map Num.digitsToNat with
+      | i :: deps => some ⟨i, fun f =>
+          deps.foldl (fun acc d => match acc, f d with
+            | some m, some v => some (Nat.max m (v + 1))
+            | _, _ => none) (some 0)⟩
+      | [] => none
+    match Sched.run items with
+    | some env => some (joinFields (cs!"some" :: env.reverse.map fun p => natField p.1 ++ ['='] ++ natField p.2))
+    | none => some (joinFields [cs!"none"])
   else if op == cs!"eval_vars" then
     match args with
     | n :: rest =>
